@@ -128,7 +128,7 @@ Accept(n, lvl) == LET b == Thin[IF lvl <= Len(Thin) THEN lvl ELSE Len(Thin)]
 Unused(ns) == {i \in (NL + 1)..Len(ns) :
                  ~\E j \in (i + 1)..Len(ns) : \E q \in 1..Len(ns[j].kids) : ns[j].kids[q] = i}
 Useful(n) == (NOps(nodes) + 1 = MaxOps) => Unused(nodes) \subseteq SeqToSet(n.kids)
-Try(n) == Useful(n) /\ Accept(n, NOps(nodes) + 1) /\ nodes' = Append(nodes, n) /\ UNCHANGED done
+Try(n) == IF Useful(n) /\ Accept(n, NOps(nodes) + 1) THEN nodes' = Append(nodes, n) /\ UNCHANGED done ELSE FALSE
 
 Init == nodes = InitNodes /\ done = FALSE
 CanAdd == ~done /\ NOps(nodes) < MaxOps
